@@ -85,7 +85,7 @@ var props = []*core.Property{
 		technique:  "finite-domain tabulation with forking walk; failed-edge propagation rule on the scanner's CFGs; provenance of the entry's results",
 		expl:       "decides the decision logic around the scanner, not the scanner's grammar",
 		notCovered: []string{"completeness of the scanner for every RFC 8259 document and every cut point (grammar-level; not decided)"},
-		rules:      []*core.Rule{ruleTruncTable, ruleFailProp, ruleParseResults, ruleAccounting, ruleLexTables, ruleCap, ruleDepthCost, ruleJSONNodes, ruleTokenGate, ruleJSONGate, ruleSnapshot, rulePools, ruleReader, ruleLimitSlice}}),
+		rules:      []*core.Rule{ruleTruncTable, ruleFailProp, ruleParseResults, ruleAccounting, ruleLexTables, ruleCap, ruleDepthCost, ruleJSONNodes, ruleTokenGate, ruleJSONGate, ruleSnapshot, rulePools, ruleReader, ruleLimitSlice, ruleWalkDiscipline}}),
 	mk(pd{id: "C09", level: "other",
 		levelText:  "Necessary conditions of JSON soundness: failure propagation; whole-mode acceptance is parsed == len; per-byte tables of every structural byte test in the container loops (only ',' continues, only the matching closer closes, '\"' starts a key, ':' follows it, everything else fails), value dispatch table; first-token gate.",
 		technique:  "finite-domain tabulation of byte dispatches (256 values each) with helper-call folding; failed-edge propagation",
@@ -115,13 +115,13 @@ var props = []*core.Property{
 		technique:  "finite-domain tabulation; path-sensitive error typestate; field-store inventory on the csv reader",
 		expl:       "decides the truncation and acceptance logic around encoding/csv and the JSON scanner",
 		notCovered: []string{"behaviour of encoding/csv at every cut position"},
-		rules:      []*core.Rule{ruleDropLastLine, ruleInspectedGuard, ruleLineThresholds, ruleTruncTable, ruleSnapshot, rulePools, ruleFailProp, ruleReader, ruleLimitSlice}}),
+		rules:      []*core.Rule{ruleDropLastLine, ruleInspectedGuard, ruleLineThresholds, ruleTruncTable, ruleSnapshot, rulePools, ruleFailProp, ruleReader, ruleLimitSlice, ruleWalkDiscipline}}),
 	mk(pd{id: "C14", level: "other",
 		levelText:  "Extend builds a fresh node from its parameters with parent = receiver and publishes [new] ++ old by one store under the write lock, old children read under the same lock; package-level Extend delegates to the root; lookup visits type, every alias and every child; the walk is first-match over whatever children holds; results are clones.",
 		technique:  "shape rules on Extend's SSA; lockset regions; origin analysis",
 		expl:       "with C03's rules, structurally complete for the priority and isolation clauses",
 		notCovered: []string{},
-		rules:      []*core.Rule{ruleExtend, ruleLookup, ruleWalkDiscipline, ruleFreshResults, ruleWriteOnce, ruleSnapshot, ruleParams, rulePkgState, ruleElemPointers}}),
+		rules:      []*core.Rule{ruleExtend, ruleLookup, ruleWalkDiscipline, ruleFreshResults, ruleWriteOnce, ruleSnapshot, ruleParams, rulePkgState, ruleElemPointers, ruleLockset, ruleCloneChain}}),
 	mk(pd{id: "C15", level: "other",
 		levelText:  "Both operands of every comparison in Is / EqualsAny are ParseMediaType results, except alias operands, which are registered normalised; every registered name and alias is a lower-case token/token; every alias / candidate is visited; lookup compares exactly; results' type strings come only from FormatMediaType over a registered name; every result copy carries the aliases of the node it was made from.",
 		technique:  "value-provenance rule on string comparisons; token grammar on folded constants; field-copy rule on result clones",
